@@ -61,6 +61,25 @@ Proof.
   - intros [[H|H] Hb]; [inversion H; subst|tauto]. apply memp_In in Hb. congruence.
 Qed.
 
+Lemma add_In x k l : In x (add k l) <-> x = k \/ In x l.
+Proof.
+  unfold add. destruct (mem k l) eqn:E; simpl.
+  - split; auto. intros [H|H]; auto. subst. now apply mem_In.
+  - split; intros [H|H]; auto.
+Qed.
+
+Lemma addp_In c' k c ks dp : In (c', k) (addp c ks dp) <-> (c' = c /\ In k ks) \/ In (c', k) dp.
+Proof.
+  induction ks as [|x r IH]; simpl.
+  - tauto.
+  - destruct (memp c x (addp c r dp)) eqn:E.
+    + rewrite IH. split; [tauto|]. intros [[H1 [H2|H2]]|H]; auto.
+      subst. apply memp_In in E. now apply IH.
+    + simpl. rewrite IH. split.
+      * intros [H|[[H1 H2]|H]]; auto. inversion H; subst. auto.
+      * intros [[H1 [H2|H2]]|H]; auto. subst. auto.
+Qed.
+
 (* ------------------------------------------------------------------ frame *)
 Section Frame.
   Variable V : Type.
@@ -115,9 +134,10 @@ Section ScanFacts.
     - inversion H. apply sub_refl.
     - destruct (defd E cur d k); inversion H. apply sub_refl.
     - destruct (String.eqb k CL); inversion H. split; simpl; auto.
+      intros. apply add_In. auto.
     - destruct (String.eqb dst CL); try discriminate.
       destruct (defd E cur d src).
-      + inversion H. split; simpl; auto.
+      + inversion H. split; simpl; auto. intros. apply add_In. auto.
       + destruct (is_user dst || mem dst E || mem dst (fst d) || memk dst (snd d)); inversion H.
         apply sub_refl.
     - discriminate.
@@ -134,7 +154,7 @@ Section ScanFacts.
     - destruct cur; try discriminate.
       destruct (scan E (Some c) p d) eqn:E1; try discriminate; inversion H.
       + apply sub_refl.
-      + split; simpl; auto. intros. apply in_or_app. auto.
+      + split; simpl; auto. intros. apply addp_In. auto.
   Qed.
 End ScanFacts.
 
@@ -223,11 +243,10 @@ Section Sound.
         * unfold upd. rewrite Hne. auto.
         * eexists. split; [reflexivity|].
           exists (fun k' => k' = k \/ A k'). split.
-          -- intros k' Hk'. simpl in Hk'. destruct Hk' as [?|[?|[[?|?]|?]]].
+          -- intros k' Hk'. simpl in Hk'. destruct Hk' as [?|[?|[G|?]]].
              ++ right. apply Hc. auto.
              ++ right. apply Hc. auto.
-             ++ left. auto.
-             ++ right. apply Hc. auto.
+             ++ apply add_In in G. destruct G as [G|G]; [left; auto | right; apply Hc; auto].
              ++ right. apply Hc. auto.
           -- apply agree_upd. auto.
     - (* Cp *) destruct (String.eqb dst CL) eqn:Ek.
@@ -240,11 +259,10 @@ Section Sound.
         * unfold upd. rewrite Hne. auto.
         * eexists. split; [reflexivity|].
           exists (fun k' => k' = dst \/ A k'). split.
-          -- intros k' Hk'. simpl in Hk'. destruct Hk' as [?|[?|[[?|?]|?]]].
+          -- intros k' Hk'. simpl in Hk'. destruct Hk' as [?|[?|[G|?]]].
              ++ right. apply Hc. auto.
              ++ right. apply Hc. auto.
-             ++ left. auto.
-             ++ right. apply Hc. auto.
+             ++ apply add_In in G. destruct G as [G|G]; [left; auto | right; apply Hc; auto].
              ++ right. apply Hc. auto.
           -- assert (Hsrc : sigma s1 src = sigma s2 src).
              { apply Ha. eapply defd_covered; eauto. }
@@ -376,8 +394,8 @@ Section Sound.
           intros k Hk. apply HcA'. simpl in Hk.
           assert (G := scan_grows E p (Some c) d d0 E1). destruct G as [G1 G2].
           destruct Hk as [H|[H|[H|[c' [H H']]]]]; auto.
-          apply in_app_or in H. destruct H as [H|H].
-          -- apply in_map_iff in H. destruct H as [x [Hx Hin]]. inversion Hx; subst. auto.
+          apply addp_In in H. destruct H as [[Hcc H]|H].
+          -- apply filter_In in H. destruct H as [H _]. auto.
           -- right. right. right. exists c'. auto.
       + (* class absent: nothing happens; the conditional facts about c are vacuous *)
         assert (Hv : exists d', v = Ok d' /\ fst d' = fst d /\
@@ -386,8 +404,7 @@ Section Sound.
           - exfalso. eapply Hnr. reflexivity.
           - exists d. auto.
           - eexists. split; [reflexivity|]. split; auto. simpl. intros c' k H.
-            apply in_app_or in H. destruct H as [H|H]; auto.
-            apply in_map_iff in H. destruct H as [x [Hx _]]. inversion Hx. auto. }
+            apply addp_In in H. destruct H as [[H _]|H]; auto. }
         destruct Hv as (d' & -> & Hf & Hsnd).
         simpl. repeat split; auto. exists d'. split; auto. exists A. split; auto.
         intros k Hk. apply Hc. rewrite Hf in Hk.
